@@ -177,7 +177,12 @@ func (n *addDefaults) yangDataChildren(
 				continue
 			}
 		}
-		new_children = append(new_children, createDefault(def))
+		dn := createDefault(def)
+		if _, isLeaf := def.(Leaf); !isLeaf && len(dn.YangDataChildren()) == 0 {
+			// Nothing below it is an active default
+			continue
+		}
+		new_children = append(new_children, dn)
 	}
 
 	return new_children
@@ -195,10 +200,7 @@ func createDefault(sch Node) datanode.DataNode {
 		return datanode.CreateDataNode(v.Name(), nil, []string{val})
 	}
 
-	var children []datanode.DataNode
-	for _, ch := range sch.DefaultChildren() {
-		children = append(children, createDefault(ch))
-	}
-
-	return datanode.CreateDataNode(sch.Name(), children, nil)
+	// The defaults below an absent node are those it would have if it were
+	// present but empty: only the default case of a choice contributes.
+	return AddDefaults(sch, datanode.CreateDataNode(sch.Name(), nil, nil))
 }
